@@ -749,6 +749,6 @@ func (g *c12G) ctxMode(x bool) int {
 
 func TestVerif_C12_twin(t *testing.T) {
 	c12Setup(t)
-	kit.Run(t, "C12", "wrapper-twin", kit.Opts{Quick: 1500, Thorough: 128000}, c12Gen,
+	kit.Run(t, "C12", "wrapper-twin", kit.Opts{Quick: 1500, Thorough: 96000}, c12Gen,
 		func(c c12Case) kit.Verdict { return c12Interp(t, c) })
 }
